@@ -6,7 +6,8 @@ lowest-numbered waiter in and prints counts, which is all the harness prints too
 
   server <hook:0|1> <plan>     plan = comma list of hook outcomes in invocation order:
                                o/f = return nil/error at once, O/F = block until `go`, then nil/error; "-" = empty
-  req <t> <route>              a request enters ServeHTTP (routes: unary health landing describe options notfound)
+  req <t> <route>              a request enters ServeHTTP (routes: unary init cont health landing describe options notfound;
+                               cont = a stream continuation whose tokens were minted by a sibling instance with the same key)
   go                           release the request currently blocked inside the hook
   stat                         counters only
 -/
@@ -46,7 +47,8 @@ def onceThrough (v : Nat) (s : OState) (t : Nat) : OState :=
 def afterNotify (d : DState) (t : Nat) (route : String) : DState :=
   let d := if route = "unary" then napply d (.observe t) else d   -- only a method handler can look
   let d := { d with pages := onceThrough 11 d.pages t }
-  let d := if route = "unary" then { d with hash := onceThrough 22 d.hash t } else d
+  -- every dispatched RPC (unary, stream init, stream continuation) asks for the protocol hash
+  let d := if route = "unary" ∨ route = "init" ∨ route = "cont" then { d with hash := onceThrough 22 d.hash t } else d
   let d := if route = "health" then { d with health := onceThrough 33 d.health t } else d
   { d with finished := t :: d.finished }
 
@@ -94,7 +96,7 @@ def parsePlan (s : String) : Option (List (Bool × Bool)) :=
     if x = "o" then some (false, true) else if x = "f" then some (false, false)
     else if x = "O" then some (true, true) else if x = "F" then some (true, false) else none
 
-def routes : List String := ["unary", "health", "landing", "describe", "options", "notfound"]
+def routes : List String := ["unary", "init", "cont", "health", "landing", "describe", "options", "notfound"]
 
 def step (d : DState) (ws : List String) : DState × String :=
   match ws with
